@@ -314,12 +314,14 @@ class ExprMixin:
         raise Unsupported(self.src(node))
 
     def floordiv(self, x, y, st, node):
+        y = self.const_of(y, st)
         if z3.is_int_value(y) and y.as_long() > 0:
             return x / y
         self.may_raise(st, y == 0, "ZeroDivisionError", node, "integer division by zero")
         return z3.If(y > 0, x / y, (-x) / (-y))
 
     def floormod(self, x, y, st, node):
+        y = self.const_of(y, st)
         if z3.is_int_value(y) and y.as_long() > 0:
             return x % y
         self.may_raise(st, y == 0, "ZeroDivisionError", node, "integer modulo by zero")
@@ -376,6 +378,7 @@ class ExprMixin:
 
     def bitand(self, x, y, st, node):
         P = prelude()
+        x, y = self.const_of(x, st), self.const_of(y, st)
         if z3.is_int_value(x) and z3.is_int_value(y):
             return I(x.as_long() & y.as_long())
         if z3.is_int_value(y) and y.as_long() >= 0:
